@@ -464,7 +464,7 @@ Proof.
   destruct fo as [ids| |ids]; cbn [fst].
   - (* success *)
     set (range2 := link (firstn u range ++ assign ids (skipn u range))).
-    set (clean := map (set_dirty false) range2 ++ rest).
+    set (clean := map (fun p => set_disk (Some (wp_data p)) (set_dirty false p)) range2 ++ rest).
     assert (Hclean : pdata clean = pdata (b_pages (ws_buf s))).
     { unfold clean, range2. rewrite pdata_app, pdata_map_flag by reflexivity. rewrite pdata_link, Hr1. exact Hsplit. }
     rewrite Hh. cbn [option_map fst].
